@@ -9,11 +9,25 @@ impl DeclarationElsewhere {
         &self,
         tlds: &'a BTreeMap<String, ToplevelDefinition>,
     ) -> Result<&'a ASN1Type, GrammarError> {
+        self.root_within(tlds, tlds.len())
+    }
+
+    /// Resolves the root type following at most `hops` further references,
+    /// so that a cycle of type references is reported instead of followed forever.
+    fn root_within<'a>(
+        &self,
+        tlds: &'a BTreeMap<String, ToplevelDefinition>,
+        hops: usize,
+    ) -> Result<&'a ASN1Type, GrammarError> {
         match tlds.get(&self.identifier).ok_or_else(|| GrammarError::new(
             &format!("Failed to resolve reference of ElsewhereDefined: {}", self.identifier),
             super::GrammarErrorType::LinkerError
         ))? {
-            ToplevelDefinition::Type(ToplevelTypeDefinition { ty: ASN1Type::ElsewhereDeclaredType(e), .. }) => e.root(tlds),
+            ToplevelDefinition::Type(ToplevelTypeDefinition { ty: ASN1Type::ElsewhereDeclaredType(_), .. }) if hops == 0 => Err(GrammarError::new(
+                &format!("Circular type reference: {}", self.identifier),
+                super::GrammarErrorType::LinkerError
+            )),
+            ToplevelDefinition::Type(ToplevelTypeDefinition { ty: ASN1Type::ElsewhereDeclaredType(e), .. }) => e.root_within(tlds, hops - 1),
             ToplevelDefinition::Type(ToplevelTypeDefinition { ty, .. }) => Ok(ty),
             ToplevelDefinition::Class(_) => Err(GrammarError::todo()),
             ToplevelDefinition::Object(_) => Err(GrammarError::todo()),
